@@ -51,6 +51,8 @@ def deep_fresh(op):
     from linear_operator.operators import LinearOperator
     args = [deep_fresh(a) if isinstance(a, LinearOperator) else a for a in op._args]
     kwargs = {k: (deep_fresh(v) if isinstance(v, LinearOperator) else v) for k, v in op._kwargs.items()}
+    if type(op).__name__ == "CholLinearOperator" and getattr(op, "upper", False):
+        kwargs["upper"] = True      # `upper` never reaches `_kwargs` (D16, another property): a faithful copy must pass it
     return op.__class__(*args, **kwargs)
 
 
@@ -195,6 +197,10 @@ def catalogue(rng, tier):
         O.LowRankRootLinearOperator(r.clone()), O.DiagLinearOperator(d.clone())), "lrrad", tags=("precond",))
     L = torch.linalg.cholesky(rand_pd(rng, 5))
     add("Chol(lower)[n=5]", lambda L=L: O.CholLinearOperator(O.TriangularLinearOperator(L.clone())), "chol")
+    add("Chol(upper)[n=5]", lambda L=L: O.CholLinearOperator(O.TriangularLinearOperator(L.mT.contiguous().clone(), upper=True), upper=True), "chol")
+    L4 = torch.linalg.cholesky(rand_pd(rng, 4))
+    add("BatchRepeat(Chol)[b=(2,)|n=4]", lambda L=L4: O.BatchRepeatLinearOperator(
+        O.CholLinearOperator(O.TriangularLinearOperator(L.clone())), torch.Size((2,))), "brepeat")
     add("Triangular(lower)[n=5]", lambda L=L: O.TriangularLinearOperator(L.clone()), "tri", pd=False)
     add("Triangular(upper)[n=5]", lambda L=L: O.TriangularLinearOperator(L.mT.contiguous().clone(), upper=True), "tri", pd=False)
     base = rand_pd(rng, 4)
@@ -912,9 +918,12 @@ class Runner:
                     chk_op = deep_fresh(new) if new is not op else op
                     ok, msg = close(chk_op.to_dense(), newA, 1e-9)
                 env.tap.items = []
-                if not ok:
-                    fails.append((cell, f"step {si}: derived operator has the wrong matrix: {msg}"))
                 tainted = fr["tainted"]
+                if not ok:
+                    # a cache-free copy of the derived operator already denotes the wrong matrix: the derivation itself is
+                    # wrong (C02/C14 territory, e.g. Chol(upper) losing `upper`), not the caches -> not judged here
+                    chk.count("derived-wrong-matrix(other property)")
+                    tainted = True
                 if new is not op:
                     a_f, unknown = audit_cache(new, newA, sticky, pd)
                     if not tainted:
